@@ -1,0 +1,11 @@
+//go:build verif
+
+package server
+
+import "github.com/bmeg/grip/jobstorage"
+
+// C11SetJobStorage installs a job storage without calling Serve (which opens TCP ports):
+// the verification harness calls the Job service handlers in-process.
+func (server *GripServer) C11SetJobStorage(js jobstorage.JobStorage) {
+	server.jStorage = js
+}
